@@ -163,6 +163,8 @@ CHECKS["C06"] = {
     "parts": [
         {"part": "writes", "pkg": ROOT, "test": "TestVerif_C06_Writes", "quick": 5000, "thorough": 40000},
         {"part": "fullrt", "pkg": "./fullrt/", "test": "TestVerif_C06_FullRT", "quick": 1500, "thorough": 20000},
+        {"part": "fullrt-bulk", "pkg": "./fullrt/", "test": "TestVerif_C06_FullRTBulk", "quick": 800, "thorough": 10000},
+        {"part": "fullrt-search", "pkg": "./fullrt/", "test": "TestVerif_C06_FullRTSearch", "quick": 1200, "thorough": 12000},
     ],
 }
 
